@@ -207,9 +207,13 @@ Lemma step_vi_ds_noclear cfg s it s' (I : SvInv cfg s) (Hok : sitem_ok s it) (Hv
 Proof.
   pose proof (vi_ds_noclear _ _ I) as Hc. pose proof (next_fresh _ _ I) as Hnx.
   destruct Hv; unfold st_go; simpl in *; intros x t' sid0 Ql Qo; lk; simpl in *; try done; try (by eapply Hc).
-  all: try (specialize (Hc _ _ _ Ht Hop)).
+  all: try (exfalso; try site_inv; first [congruence | destruct Hop as [Hop|Hop]; congruence]).
   all: try (by (destruct (sc_noclear cfg); auto)).
-  all: try (try site_inv; destruct Hop as [Hop|Hop]; congruence).
-  all: try (try site_inv; congruence).
-  all: try (site_inv; destruct (sc_noclear cfg) eqn:Hnc; (try destruct Hc as [Hc|[Hc|Hc]]); try congruence; auto).
+  all: try (specialize (Hc _ _ _ Ht Qo); try site_inv; destruct (sc_noclear cfg) eqn:Hnc; ds_next_cases;
+            solve [ auto | done | match goal with H : st_pc _ = _ |- _ => rewrite H in Hc; naive_solver end ]).
+  - subst op. done.
+  - destruct (connend_cancel_ok sid x0) as (Ho & Hp & _). rewrite Ho in Qo. rewrite Hp. by eapply Hc.
+  - specialize (Hc _ _ _ Ht Qo). destruct (sc_noclear cfg); [|by destruct l].
+    destruct Hpc as [Hpc|[Hpc ->]]; [rewrite Hpc in Hc; naive_solver|simpl; auto].
+  - destruct (shnet_cancel_ok x0) as (Ho & Hp & _). rewrite Ho in Qo. rewrite Hp. by eapply Hc.
 Qed.
